@@ -5,6 +5,24 @@
    Versions are ordered by the real packaging.Version: the harness ships, per case, the rank of every
    version string that occurs (equal versions share a rank; strings that are no version have none). *)
 From PV Require Import Common.Util Gen.ReqConsts Req.Merge Req.Install Req.Spec.
+From Coq Require Ascii String.
+
+(* ---------- transport encoding of strings in the generated case files ----------
+   A Python str is shipped as a Coq string literal (fast to parse): printable ASCII as is, every other code point,
+   the double quote and the backslash as `\HEX;`.  [U] decodes it to the list of code points. *)
+Definition hexval (n : N) : N :=
+  if (n <? 58)%N then (n - 48)%N else if (n <? 71)%N then (n - 55)%N else (n - 87)%N.
+Fixpoint udec (l : list Ascii.ascii) (esc : option N) : list N :=
+  match l with
+  | [] => []
+  | c :: r =>
+    let n := Ascii.N_of_ascii c in
+    match esc with
+    | None => if N.eqb n 92 then udec r (Some 0%N) else n :: udec r None
+    | Some acc => if N.eqb n 59 then acc :: udec r None else udec r (Some (acc * 16 + hexval n)%N)
+    end
+  end.
+Definition U (s : String.string) : str := udec (String.list_ascii_of_string s) None.
 
 (* ---------- the version order of a case ---------- *)
 Definition ranks := list (str * N).
@@ -87,7 +105,7 @@ Record hstep := {
   hs_in : step_in;
   hs_table : obs_table;
   hs_env_before : alist;
-  hs_kind : N;                        (* 0 = returned early (gate), 1 = exception, 2 = ran to the end *)
+  hs_kind : N;                        (* 1 = an exception propagated, 2 = returned (early at the gate, or at the end) *)
   hs_args : option (list str);        (* installer arguments, if the installer was called *)
   hs_rec_after : alist;               (* CONF_INSTALLED_PACKAGES of the config entry after the run *)
   hs_updated : bool;                  (* async_update_entry was called *)
@@ -104,7 +122,7 @@ Definition step_matches (o : step_out) (h : hstep) : bool :=
   && alist_eqb (so_rec o) (hs_rec_after h)
   && alist_eqb (so_env_after o) (hs_env_after h)
   && match so_out o with
-     | OGated => N.eqb (hs_kind h) 0 && negb (hs_updated h) && match hs_args h with None => true | Some _ => false end
+     | OGated => N.eqb (hs_kind h) 2 && negb (hs_updated h) && match hs_args h with None => true | Some _ => false end
      | ORaised => N.eqb (hs_kind h) 1 && negb (hs_updated h) && match hs_args h with None => true | Some _ => false end
      | ODone todo _ u =>
          N.eqb (hs_kind h) 2 && Bool.eqb u (hs_updated h)
